@@ -99,6 +99,10 @@ theorem getD_map_div (pv : K) (p : List K) (c : Nat) :
 theorem elimRow_length (k : Nat) (p r : List K) : (elimRow k p r).length = min r.length p.length := by
   simp [elimRow]
 
+theorem getD_replicate_zero (n j : Nat) : (List.replicate n (0 : K)).getD j 0 = 0 := by
+  rw [List.getD_eq_getElem?_getD, List.getElem?_replicate]
+  split <;> rfl
+
 theorem getD_append_len (x : List K) (a : K) (n : Nat) (h : x.length = n) :
     (x ++ [a]).getD n 0 = a := by
   subst h; simp [List.getD_eq_getElem?_getD]
@@ -441,6 +445,220 @@ theorem lstsq_sound_aux (conj : K → K) (b : Basis K) (x y : List K) (hy : y.le
   apply Finset.sum_congr rfl
   intro j' _
   ring
+
+/-! ## Completeness: independent modes are never answered with "dependent"
+
+A failed pivot search in column `k` exhibits a non-zero vector in the kernel of the coefficient
+block (`pivot_fail_kernel`); row operations keep that kernel (`foldlM_sol` with a homogeneous
+right-hand side), so `Aᴴ A z = 0`, hence `‖A z‖² = 0`, hence `A z = 0` (`gram_kernel`) —
+impossible for independent modes. -/
+
+theorem foldlM_none (len k : Nat) (M : List (List K))
+    (h : (List.range' k len).foldlM pivotStep M = none) :
+    ∃ j, j < len ∧ ∃ Mj, (List.range' k j).foldlM pivotStep M = some Mj ∧ pivotStep Mj (k + j) = none := by
+  induction len generalizing k M with
+  | zero => simp at h
+  | succ len ih =>
+    rw [List.range'_succ, List.foldlM_cons] at h
+    cases h1 : pivotStep M k with
+    | none => exact ⟨0, by omega, M, by simp, by simpa using h1⟩
+    | some M1 =>
+      rw [h1] at h
+      obtain ⟨j, hj, Mj, hf, hp⟩ := ih (k + 1) M1 (by simpa using h)
+      refine ⟨j + 1, by omega, Mj, ?_, ?_⟩
+      · rw [List.range'_succ, List.foldlM_cons, h1]; simpa using hf
+      · rwa [show k + (j + 1) = k + 1 + j by omega]
+
+/-- the kernel vector exhibited by a failed pivot search in column `k` -/
+def kerVec (n k : Nat) (M : List (List K)) : List K :=
+  (List.range n).map fun c => if c < k then (M.getD c []).getD k 0 else if c = k then -1 else 0
+
+open Finset in
+theorem pivot_fail_kernel (n k : Nat) (M : List (List K)) (hk : k < n) (hR : Red n k M)
+    (hfail : pivotStep M k = none) : ∀ r ∈ M, dot r (kerVec n k M ++ [0]) = 0 := by
+  have hz : ∀ r ∈ M.drop k, r.getD k 0 = 0 := by
+    intro r hr
+    simp only [pivotStep] at hfail
+    split at hfail
+    · next hnone =>
+      have := List.find?_eq_none.mp hnone r hr
+      simpa using this
+    · simp at hfail
+  intro r hr
+  obtain ⟨i, hi, rfl⟩ := List.getElem_of_mem hr
+  have hin : i < n := by rw [← hR.len]; exact hi
+  have hlen : M[i].length = n + 1 := hR.row _ hr
+  have hzl : (kerVec n k M).length = n := by simp [kerVec]
+  have hv : (kerVec n k M ++ [0]).length = n + 1 := by rw [List.length_append, hzl]; simp
+  have hrr : M[i] = (List.range (n + 1)).map (M[i].getD · 0) := by
+    have := list_eq_range_getD M[i] (0 : K)
+    rwa [hlen] at this
+  have hdot : dot M[i] (kerVec n k M ++ [0]) =
+      ∑ c ∈ range (n + 1), M[i].getD c 0 * (kerVec n k M ++ [0]).getD c 0 := by
+    have := dot_range_list (n + 1) (fun c => M[i].getD c 0) (kerVec n k M ++ [0]) hv
+    rwa [← hrr] at this
+  have hMi : M.getD i [] = M[i] := by
+    rw [List.getD_eq_getElem?_getD, List.getElem?_eq_getElem hi]; rfl
+  have hzc : ∀ c, c < n → (kerVec n k M ++ [0]).getD c 0 =
+      if c < k then (M.getD c []).getD k 0 else if c = k then -1 else 0 := by
+    intro c hc
+    rw [getD_append_lt' _ _ c (by rw [hzl]; exact hc)]
+    unfold kerVec
+    rw [getD_map_range _ _ _ _ hc]
+  rw [hdot, Finset.sum_range_succ, getD_append_len _ _ n hzl, mul_zero, add_zero]
+  by_cases hik : i < k
+  · have hterm : ∀ c ∈ range n, M[i].getD c 0 * (kerVec n k M ++ [0]).getD c 0 =
+        (if c = i then M[i].getD k 0 else 0) + (if c = k then -(M[i].getD k 0) else 0) := by
+      intro c hc
+      have hc' : c < n := Finset.mem_range.mp hc
+      rw [hzc c hc']
+      rcases Nat.lt_trichotomy c k with hck | hck | hck
+      · rw [if_pos hck, ← hMi, hR.diag i hik c hck, if_neg (Nat.ne_of_lt hck)]
+        by_cases hic : i = c
+        · subst hic; simp
+        · rw [if_neg hic, if_neg (fun h => hic h.symm)]; simp
+      · subst hck
+        rw [if_neg (Nat.lt_irrefl _), if_pos rfl, if_neg (Nat.ne_of_gt hik), if_pos rfl]
+        ring
+      · rw [if_neg (by omega), if_neg (by omega), if_neg (by omega), if_neg (by omega)]
+        ring
+    rw [Finset.sum_congr rfl hterm, Finset.sum_add_distrib,
+      Finset.sum_ite_eq' (range n) i (fun _ => M[i].getD k 0),
+      Finset.sum_ite_eq' (range n) k (fun _ => -(M[i].getD k 0)),
+      if_pos (Finset.mem_range.mpr hin), if_pos (Finset.mem_range.mpr hk)]
+    ring
+  · have hki : k ≤ i := Nat.le_of_not_lt hik
+    have hmem : M[i] ∈ M.drop k := by
+      have : (M.drop k)[i - k]? = some M[i] := by
+        rw [List.getElem?_drop, show k + (i - k) = i by omega, List.getElem?_eq_getElem hi]
+      exact List.mem_of_getElem? this
+    apply Finset.sum_eq_zero
+    intro c hc
+    have hc' : c < n := Finset.mem_range.mp hc
+    rw [hzc c hc']
+    rcases Nat.lt_trichotomy c k with hck | hck | hck
+    · rw [hR.low _ hmem c hck, zero_mul]
+    · subst hck; rw [hz _ hmem, zero_mul]
+    · rw [if_neg (by omega), if_neg (by omega), mul_zero]
+
+theorem gaussJordan_none_kernel (n : Nat) (M : List (List K)) (hl : M.length = n)
+    (hW : ∀ r ∈ M, r.length = n + 1) (h : gaussJordan n M = none) :
+    ∃ z : List K, z.length = n ∧ (∃ k, k < n ∧ z.getD k 0 = -1) ∧ ∀ r ∈ M, dot r (z ++ [0]) = 0 := by
+  unfold gaussJordan at h
+  have hf : (List.range' 0 n).foldlM pivotStep M = none := by
+    rw [← List.range_eq_range']
+    cases hfo : (List.range n).foldlM pivotStep M with
+    | none => rfl
+    | some M' => rw [hfo] at h; simp at h
+  obtain ⟨j, hj, Mj, hfj, hpj⟩ := foldlM_none n 0 M hf
+  rw [Nat.zero_add] at hpj
+  have hR : Red n j Mj := by
+    have := foldlM_red n j 0 M Mj (by omega) hfj
+      ⟨hl, hW, fun i hi => by omega, fun r _ c hc => by omega⟩
+    simpa using this
+  refine ⟨kerVec n j Mj, by simp [kerVec], ⟨j, hj, ?_⟩, ?_⟩
+  · unfold kerVec
+    rw [getD_map_range _ _ _ _ hj, if_neg (Nat.lt_irrefl _), if_pos rfl]
+  · exact foldlM_sol _ M Mj (n + 1) _ hfj hW (pivot_fail_kernel n j Mj hj hR hpj)
+
+end
+
+open Finset in
+/-- `Aᴴ A z = 0 ⇒ A z = 0` (index-function form; `re (conj w * w)` is the squared modulus) -/
+theorem gram_kernel {K R : Type} [CommRing K] [Field R] [LinearOrder R] [IsStrictOrderedRing R]
+    (conj : K →+* K) (re : K →+ R) (hpos : ∀ w, 0 ≤ re (conj w * w))
+    (hzero : ∀ w, re (conj w * w) = 0 → w = 0) (n m : Nat) (A : Nat → Nat → K) (z : Nat → K)
+    (h : ∀ j ∈ range m, ∑ j' ∈ range m, (∑ i ∈ range n, conj (A i j) * A i j') * z j' = 0) :
+    ∀ i ∈ range n, ∑ j ∈ range m, A i j * z j = 0 := by
+  obtain ⟨w, hw⟩ : ∃ w : Nat → K, ∀ i, w i = ∑ j ∈ range m, A i j * z j := ⟨_, fun _ => rfl⟩
+  have h1 : ∀ j ∈ range m, ∑ i ∈ range n, conj (A i j) * w i = 0 := by
+    intro j hj
+    rw [← h j hj]
+    simp only [hw, Finset.mul_sum, Finset.sum_mul]
+    rw [Finset.sum_comm]
+    apply Finset.sum_congr rfl; intro j' _
+    apply Finset.sum_congr rfl; intro i _
+    ring
+  have hcw : ∀ i, conj (w i) = ∑ j ∈ range m, conj (A i j) * conj (z j) := by
+    intro i; rw [hw, map_sum]; simp only [map_mul]
+  have h2 : ∑ i ∈ range n, conj (w i) * w i = 0 := by
+    calc ∑ i ∈ range n, conj (w i) * w i
+        = ∑ i ∈ range n, ∑ j ∈ range m, conj (z j) * (conj (A i j) * w i) := by
+          apply Finset.sum_congr rfl; intro i _
+          rw [hcw, Finset.sum_mul]
+          apply Finset.sum_congr rfl; intro j _
+          ring
+      _ = ∑ j ∈ range m, ∑ i ∈ range n, conj (z j) * (conj (A i j) * w i) := Finset.sum_comm
+      _ = 0 := by
+          apply Finset.sum_eq_zero; intro j hj
+          rw [← Finset.mul_sum, h1 j hj, mul_zero]
+  have h3 : ∑ i ∈ range n, re (conj (w i) * w i) = 0 := by rw [← map_sum, h2, map_zero]
+  have h4 := (Finset.sum_eq_zero_iff_of_nonneg (fun i _ => hpos (w i))).mp h3
+  intro i hi
+  rw [← hw]
+  exact hzero _ (h4 i hi)
+
+section
+variable {K R : Type} [Field K] [DecidableEq K] [Field R] [LinearOrder R] [IsStrictOrderedRing R]
+
+open Finset in
+/-- **`ModeBasis.lstsq` is complete**: for linearly independent modes it always answers. -/
+theorem lstsq_complete_gen (conj : K →+* K) (re : K →+ R) (hpos : ∀ w, 0 ≤ re (conj w * w))
+    (hzero : ∀ w, re (conj w * w) = 0 → w = 0) (b : Basis K) (hb : WF b)
+    (hind : ∀ x y : List K, x.length = b.nmodes → y.length = b.nmodes → linComb b x = linComb b y → x = y)
+    (y : List K) (hy : y.length = b.npix) : ∃ x, lstsq conj b y = some x := by
+  cases h : lstsq conj b y with
+  | some x => exact ⟨x, rfl⟩
+  | none =>
+    exfalso
+    simp only [lstsq] at h
+    have hM : List.zipWith (fun g hi => g ++ [hi])
+        ((adjRows conj b).map fun r => ((List.range b.nmodes).map (column b)).map fun c => dot r c)
+        (matvec (adjRows conj b) y) =
+        (List.range b.nmodes).map fun j =>
+          ((List.range b.nmodes).map fun j' => dot ((column b j).map conj) (column b j')) ++
+            [dot ((column b j).map conj) y] := by
+      unfold adjRows matvec
+      rw [List.map_map, List.map_map, List.zipWith_map, List.zipWith_self]
+      apply List.map_congr_left
+      intro j _
+      simp only [Function.comp, List.map_map]
+      rfl
+    rw [hM] at h
+    obtain ⟨z, hzl, ⟨k, hk, hzk⟩, hsol⟩ := gaussJordan_none_kernel b.nmodes _ (by simp)
+      (by intro r hr; simp only [List.mem_map, List.mem_range] at hr; obtain ⟨j, _, rfl⟩ := hr; simp) h
+    have hcol : ∀ j j', dot ((column b j).map conj) (column b j') =
+        ∑ i ∈ range b.npix, conj (ent b i j) * ent b i j' := by
+      intro j j'
+      unfold column
+      rw [List.map_map, dot_range_list b.npix _ _ (by simp)]
+      apply Finset.sum_congr rfl
+      intro i hi
+      rw [getD_map_range _ _ _ _ (Finset.mem_range.mp hi)]
+      rfl
+    have heq : ∀ j ∈ range b.nmodes,
+        ∑ j' ∈ range b.nmodes, (∑ i ∈ range b.npix, conj (ent b i j) * ent b i j') * z.getD j' 0 = 0 := by
+      intro j hj
+      have := hsol _ (List.mem_map.mpr ⟨j, List.mem_range.mpr (Finset.mem_range.mp hj), rfl⟩)
+      rw [dot_append_single _ _ _ _ (by simp [hzl]), dot_range_list b.nmodes _ z hzl, mul_zero,
+        add_zero] at this
+      simp only [hcol] at this
+      exact this
+    have hAz := gram_kernel conj re hpos hzero b.npix b.nmodes (ent b) (fun j => z.getD j 0) heq
+    have hl0 : (List.replicate b.nmodes (0 : K)).length = b.nmodes := by simp
+    have hlc : linComb b z = linComb b (List.replicate b.nmodes 0) := by
+      rw [linComb_fn b hb z hzl, linComb_fn b hb _ hl0]
+      apply List.map_congr_left
+      intro i hi
+      rw [hAz i (Finset.mem_range.mpr (List.mem_range.mp hi))]
+      symm
+      apply Finset.sum_eq_zero
+      intro j hj
+      rw [getD_replicate_zero, mul_zero]
+    have hz0 := hind z _ hzl hl0 hlc
+    rw [hz0] at hzk
+    rw [getD_replicate_zero] at hzk
+    exact absurd hzk.symm (neg_ne_zero.mpr one_ne_zero)
 
 end
 
